@@ -48,7 +48,7 @@ pub struct C06 {
 // ---------------------------------------------------------------------------------------------------
 
 pub const KINDS: [&str; 7] = ["cw-rect", "ccw-rect", "L", "triangle", "box", "path", "right-trapezoid"];
-const KIND_TAGS: [&str; 11] = ["kind:cw-rect", "kind:ccw-rect", "kind:L", "kind:triangle", "kind:box", "kind:path", "kind:right-trapezoid", "kind:all", "kind:diagonal-path", "kind:path-width-3", "kind:path-width-1"];
+const KIND_TAGS: [&str; 13] = ["kind:cw-rect", "kind:ccw-rect", "kind:L", "kind:triangle", "kind:box", "kind:path", "kind:right-trapezoid", "kind:all", "kind:diagonal-path", "kind:path-width-3", "kind:path-width-1", "kind:path-diagonal-then-straight", "kind:path-straight-diagonal-straight"];
 const ORIENT_TAGS_S: [&str; 8] = ["sref:R0", "sref:R90", "sref:R180", "sref:R270", "sref:MX", "sref:MX-R90", "sref:MX-R180", "sref:MX-R270"];
 const ORIENT_TAGS_A: [&str; 8] = ["aref:R0", "aref:R90", "aref:R180", "aref:R270", "aref:MX", "aref:MX-R90", "aref:MX-R180", "aref:MX-R270"];
 const LATTICE_TAGS: [&str; 5] = ["lattice:axis", "lattice:rotated-with-angle", "lattice:negative-pitch", "lattice:skew", "lattice:cols-along-y"];
@@ -83,6 +83,9 @@ fn shape_elem(kind: usize, layer: i16, dt: i16, off: (i32, i32)) -> GdsElement {
         6 => GdsBoundary { layer, datatype: dt, xy: closed(&[(10, 5), (40, 5), (40, 25), (20, 25)], off), ..Default::default() }.into(),
         9 => GdsPath { layer, datatype: dt, width: Some(3), xy: [(10, 5), (50, 5), (50, 35), (20, 35)].iter().map(|p| gp((p.0 + off.0, p.1 + off.1))).collect(), ..Default::default() }.into(),
         10 => GdsPath { layer, datatype: dt, width: Some(1), xy: [(10, 5), (10, 45), (40, 45)].iter().map(|p| gp((p.0 + off.0, p.1 + off.1))).collect(), ..Default::default() }.into(),
+        // paths with a diagonal segment before / between axis-parallel ones (membership is fixed on the latter)
+        11 => GdsPath { layer, datatype: dt, width: Some(4), xy: [(10, 5), (40, 35), (90, 35)].iter().map(|p| gp((p.0 + off.0, p.1 + off.1))).collect(), ..Default::default() }.into(),
+        12 => GdsPath { layer, datatype: dt, width: Some(4), xy: [(10, 5), (10, 45), (40, 75), (90, 75)].iter().map(|p| gp((p.0 + off.0, p.1 + off.1))).collect(), ..Default::default() }.into(),
         8 => GdsPath { layer, datatype: dt, width: Some(4), xy: [(10, 5), (40, 35)].iter().map(|p| gp((p.0 + off.0, p.1 + off.1))).collect(), ..Default::default() }.into(),
         _ => panic!("MACHINERY: C06 bad shape kind {kind}"),
     }
@@ -388,7 +391,7 @@ impl C06 {
     /// on, next to and far from every edge and every *extended* edge line, inside and outside the bounding box.
     fn gen_grid(&self, _t: Tier, c: &mut Chooser) -> Case {
         // the seven kinds of the label part plus paths of odd width (3, three segments) and of width 1
-        let kind = [0usize, 1, 2, 3, 4, 5, 6, 9, 10][c.free(9, "shape-kind")];
+        let kind = [0usize, 1, 2, 3, 4, 5, 6, 9, 10, 11, 12][c.free(11, "shape-kind")];
         let start_vertex = c.free(4, "start-vertex");
         let reverse = c.free(2, "reverse-direction") == 1;
         let e = shape_elem(kind, 7, 3, (0, 0));
@@ -607,6 +610,8 @@ fn has_label_on_diagonal_path_layer(g: &GdsLibrary) -> bool {
 #[derive(Default)]
 struct ObsCell {
     flat: Option<Result<Bag<Key>, String>>,
+    /// net names carried by the flattened elements (name -> number of elements)
+    flat_nets: Bag<String>,
     shapes: Bag<(i16, i16, CShape, Option<String>)>,
     annotations: Bag<(String, P)>,
     insts: u64,
@@ -648,6 +653,9 @@ fn run_subject(gds: &GdsLibrary) -> Run {
                     let mut b = Bag::new();
                     let mut err = None;
                     for e in &elems {
+                        if let Some(n) = &e.net {
+                            bag_add(&mut oc.flat_nets, n.clone(), 1);
+                        }
                         match rawview::velem(e, &layers) {
                             Ok(s) => bag_add(&mut b, (s.layer, s.purpose, s.shape), 1),
                             Err(m) => err = Some(m),
@@ -670,6 +678,8 @@ fn run_subject(gds: &GdsLibrary) -> Run {
 struct Exp {
     flat: BTreeMap<String, Bag<Key>>,
     cells: BTreeMap<String, CellRef>,
+    /// per struct: net names carried by its flattened shapes (own named shapes + those of every placement below it)
+    flat_nets: BTreeMap<String, Bag<String>>,
 }
 fn expect(g: &GdsLibrary, q: Quirks) -> Result<Exp, String> {
     let flat = gdsflat::flatten_all(g, q)?;
@@ -677,7 +687,42 @@ fn expect(g: &GdsLibrary, q: Quirks) -> Result<Exp, String> {
     for s in &g.structs {
         cells.insert(s.name.clone(), gdsflat::cell_ref(s, q)?);
     }
-    Ok(Exp { flat, cells })
+    // a named shape keeps its name wherever its cell is placed: count names down the hierarchy
+    let mut flat_nets: BTreeMap<String, Bag<String>> = BTreeMap::new();
+    fn nets_of(name: &str, g: &GdsLibrary, cells: &BTreeMap<String, CellRef>, memo: &mut BTreeMap<String, Bag<String>>, depth: usize) -> Option<Bag<String>> {
+        if let Some(b) = memo.get(name) {
+            return Some(b.clone());
+        }
+        if depth > 64 {
+            return None;
+        }
+        let s = g.structs.iter().find(|s| s.name == name)?;
+        let mut b: Bag<String> = Bag::new();
+        for ((_, _, _, net), n) in &cells.get(name)?.shapes {
+            if let Some(net) = net {
+                bag_add(&mut b, net.clone(), *n);
+            }
+        }
+        for e in &s.elems {
+            let (child, mult) = match e {
+                GdsElement::GdsStructRef(r) => (r.name.as_str(), 1u64),
+                GdsElement::GdsArrayRef(a) => (a.name.as_str(), (a.cols.max(0) as u64) * (a.rows.max(0) as u64)),
+                _ => continue,
+            };
+            let cb = nets_of(child, g, cells, memo, depth + 1)?;
+            for (k, n) in &cb {
+                bag_add(&mut b, k.clone(), *n * mult);
+            }
+        }
+        memo.insert(name.to_string(), b.clone());
+        Some(b)
+    }
+    for s in &g.structs {
+        if let Some(b) = nets_of(&s.name, g, &cells, &mut flat_nets, 0) {
+            flat_nets.insert(s.name.clone(), b);
+        }
+    }
+    Ok(Exp { flat, cells, flat_nets })
 }
 
 fn show_key(k: &Key) -> String {
@@ -708,6 +753,11 @@ fn compare(exp: &Exp, obs: &BTreeMap<String, ObsCell>) -> Vec<(&'static str, Str
                         ),
                     ));
                 }
+            }
+        }
+        if let (Some(Ok(got)), Some(want_nets)) = (&oc.flat, exp.flat_nets.get(name)) {
+            if got == want_flat && &oc.flat_nets != want_nets {
+                out.push(("flatten-net-mismatch", format!("flattened {name}: its shapes carry the net names {:?} (name -> count); the named shapes of the cells placed below it give {:?}", oc.flat_nets, want_nets)));
             }
         }
         let want = &exp.cells[name];
@@ -794,7 +844,7 @@ impl CaseDriver for C06 {
                 "one cell: shape kind (7) x label position {{inside, on an edge, on a vertex, just outside, far outside}} x vertex list started at each of 4 vertices x both directions (paths: drawn from either end) x label on the same / another layer x second shape {{none, same layer overlapping, other layer, same layer other datatype}} x second label {{none, same point listed before, same point listed after, inside with another string}} (all free); costed (bound {}): strings (mixed / upper / single-letter case pairs), element order (shapes first, labels first, interleaved), a diagonal path on the labels' layer. Non-trivial = every case (each has a label).",
                 self.bound(tier)
             ),
-            Part::Grid => "one cell holding one shape (each of the 7 kinds plus a three-segment path of width 3 and a path of width 1, vertex list started at each of 4 vertices, both directions) and one same-layer label at every point of the lattice spanned by the shape's vertex coordinates: every vertex x / y and its neighbours at -3..=3, plus the midpoints between consecutive ones - on, next to and away from every edge and every extended edge line, inside and outside the bounding box (paths: the points whose membership the statement fixes). All free (no deviation bound).".into(),
+            Part::Grid => "one cell holding one shape (each of the 7 kinds plus a three-segment path of width 3, a path of width 1 and two paths with a diagonal segment before / between axis-parallel ones, vertex list started at each of 4 vertices, both directions) and one same-layer label at every point of the lattice spanned by the shape's vertex coordinates: every vertex x / y and its neighbours at -3..=3, plus the midpoints between consecutive ones - on, next to and away from every edge and every extended edge line, inside and outside the bounding box (paths: the points whose membership the statement fixes). All free (no deviation bound).".into(),
             Part::Mal => "malformed libraries: dangling SREF / AREF, self-reference by SREF / AREF, 2-cycle, 3-cycle (through an AREF), cols = 0, rows = 0, boundary with empty xy, path with empty xy (required outcome: Err), plus boundary not closed, path without width, SREF abs_mag, AREF abs_angle (Err expected and the only outcome judged); each as the whole library and below a well-formed top cell; every listing order (quick: cyclic libraries in every rotation).".into(),
         };
         Describe {
